@@ -76,6 +76,7 @@ class StepSem:
         self.kwarg = kwarg
         self.captured: List[str] = []
         self.evaluated: List[str] = []
+        self.ensured: set = set()
 
     # ---------------------------------------------------------------- parameters
     def pname(self, name: str) -> Optional[str]:
@@ -334,6 +335,8 @@ def helper_forms(repo, module, fn: ast.FunctionDef) -> Tuple[List[str], "StepSem
             is_step = True
         cs = set()
         for c in p.conds:
+            if c[2] and "class<labrea.types.Evaluatable>" in c[2]:
+                sem.ensured.add(sem.rename(c[2]))       # (which parameters were asked whether they are expressions: R-HF)
             if not c[2] or "class<labrea.types.Evaluatable>" in c[2]:
                 continue        # Evaluatable.ensure(x): both outcomes are the evaluated x
             k, pol = Frame.norm_cond(c[2], c[1])
